@@ -57,6 +57,7 @@ var c13Queries = []string{
 	"SELECT a, ASYNC.vid(a) AS v FROM t WHERE a > ?",
 	"SELECT a, SPINASYNC.vid(a) FROM t WHERE a > ?",
 	"SELECT * FROM t x PARALLEL JOIN t y ON x.a <= y.a WHERE x.a > ?",
+	"SELECT a, (SELECT ASYNC.vid(p) AS w FROM items) AS s FROM t WHERE a > ?",
 }
 
 // H_C13_queries: two queries run concurrently on separate documents and on
@@ -67,7 +68,7 @@ func H_C13_queries() {
 	q2 := verif.Choose("q2", len(c13Queries))
 	// the two threads are symmetric: unordered pairs; the queries with their
 	// own goroutines are paired with the plain filter and with themselves
-	if q2 > q1 || (q1 >= 4 && q2 != 0 && q2 != q1) {
+	if q2 > q1 || (q1 >= 4 && q2 != 0 && (q2 != q1 || verif.Tier() == 0)) {
 		verif.Assume(false)
 	}
 	RegisterFunction("vid", idFunc)
